@@ -82,7 +82,13 @@ func FindMajority(quorum, threshold uint, set ...uint) int {
 		return set[i] > set[j]
 	})
 
-	if quorum-sum+set[0] < th {
+	// NOTE votes can be over quorum; nothing is missing then.
+	var missing uint
+	if quorum > sum {
+		missing = quorum - sum
+	}
+
+	if missing+set[0] < th {
 		return -2
 	}
 
